@@ -213,10 +213,102 @@ pub fn run(ctx: &mut Ctx) {
 		);
 		ctx.add(fam);
 	}
+	// wide objects over one or two keys and two values: multiplicities beyond 32/64 entries
+	if ctx.wants("D_wide_duplicates") {
+		let n = ctx.pick(40_000, 600_000);
+		let fam = Fam::new("D_wide_duplicates", "proptest: objects with 2..130 entries over <= 3 keys and values from {1, 2, [1], {}} (so that equal (key, value) pairs abound), compared with (i) a random permutation (equal), (ii) the same with one value flipped (multiplicities differ), (iii) the same with two values exchanged between positions (equal as multisets); expectation from the normal form; both argument orders; non-trivial = more than 32 entries", false);
+		let fam = run_proptest(
+			ctx,
+			fam,
+			n,
+			|| (proptest::collection::vec((0u8..3, 0u8..4), 2..130), proptest::collection::vec(any::<u8>(), 0..140), any::<u16>(), any::<u16>(), 0u8..4),
+			|(entries, ch, p, q, newv)| {
+				let keys = ["k", "a-key-longer-than-sixteen-bytes", ""];
+				let vals = [RefValue::num("1"), RefValue::num("2"), RefValue::Arr(vec![RefValue::num("1")]), RefValue::Obj(vec![])];
+				let a: Vec<(String, RefValue)> = entries.iter().map(|(k, v)| (keys[*k as usize].to_string(), vals[*v as usize].clone())).collect();
+				let va = RefValue::Obj(a.clone());
+				// (i) permutation
+				let perm = shuffle(&va, &mut gen::Chooser::new(ch));
+				// (ii) one value flipped
+				let mut b = match &perm { RefValue::Obj(o) => o.clone(), _ => unreachable!() };
+				let i = gen::map_index(*p, b.len());
+				b[i].1 = vals[*newv as usize].clone();
+				let vb = RefValue::Obj(b.clone());
+				// (iii) two values exchanged
+				let mut c = b.clone();
+				let j = gen::map_index(*q, c.len());
+				let (x, y) = (c[i].1.clone(), c[j].1.clone());
+				c[i].1 = y;
+				c[j].1 = x;
+				let vc = RefValue::Obj(c);
+				let (ja, jp, jb, jc) = (va.to_value(), perm.to_value_push(), vb.to_value(), vc.to_value_push());
+				for (name, x, y, rx, ry) in [("permutation", &ja, &jp, &va, &perm), ("one value flipped", &ja, &jb, &va, &vb), ("flipped vs exchanged", &jb, &jc, &vb, &vc), ("original vs exchanged", &ja, &jc, &va, &vc)] {
+					let expected = normal_form(rx) == normal_form(ry);
+					if let Err(m) = pair_property(x, y, expected, false) {
+						return Outcome::fail(format!("{name}: {m}"));
+					}
+				}
+				Outcome::ok(a.len() > 32, vec![if a.len() > 64 { "entries_gt_64" } else if a.len() > 32 { "entries_33_64" } else { "entries_le_32" }])
+			},
+			|(entries, ch, p, q, newv)| json!({"entries": entries, "choices": ch, "p": p, "q": q, "newv": newv}),
+		);
+		ctx.add(fam);
+	}
+	// objects reached through operation histories (removals, collapses, sorts), not only built in one go
+	if ctx.wants("H_after_histories") {
+		let n = ctx.pick(20_000, 300_000);
+		let keys: Vec<String> = vec!["a".into(), "b".into(), "c".into()];
+		let fam = Fam::new("H_after_histories", "proptest: an object produced by a random history of C06 operations over 3 keys (pushes, front insertions, removals by key/position/iterator, insert collapses, sorts, clones) compared with a rotated rebuild of its final entry list (equal) and with a one-value mutation of that rebuild (expectation from the normal form), both argument orders; non-trivial = the history contains a removal and the final object has a duplicated key", false);
+		let ks = keys.clone();
+		let fam = run_proptest(
+			ctx,
+			fam,
+			n,
+			move || (proptest::collection::vec(super::c06::arb_op(ks.clone(), true), 2..40), any::<u16>(), any::<u16>()),
+			|(ops, rot, mutsel)| {
+				let universe = ["a", "b", "c"];
+				let (obj, model) = match super::c06::run_history(ops, &universe, false) {
+					Ok(x) => x,
+					Err(m) => return Outcome::fail(format!("history: {m}")),
+				};
+				let a = Value::Object(obj);
+				let mut rotated = model.clone();
+				if !rotated.is_empty() {
+					let k = gen::map_index(*rot, rotated.len());
+					rotated.rotate_left(k);
+				}
+				let b = RefValue::Obj(rotated.clone());
+				if let Err(m) = pair_property(&a, &b.to_value(), true, false) {
+					return Outcome::fail(format!("object after the history vs rotated rebuild: {m}"));
+				}
+				let mut has_dup = false;
+				if !rotated.is_empty() {
+					let i = gen::map_index(*mutsel, rotated.len());
+					// take the value of another entry with the same key if there is one (changes multiplicities only), else a fresh value
+					let key = rotated[i].0.clone();
+					let other = rotated.iter().enumerate().find(|(j, (k, v))| *j != i && *k == key && *v != rotated[i].1).map(|(_, (_, v))| v.clone());
+					has_dup = rotated.iter().filter(|(k, _)| *k == key).count() >= 2;
+					rotated[i].1 = other.unwrap_or(RefValue::str("fresh"));
+					let c = RefValue::Obj(rotated);
+					let expected = normal_form(&RefValue::Obj(model.clone())) == normal_form(&c);
+					if let Err(m) = pair_property(&a, &c.to_value(), expected, false) {
+						return Outcome::fail(format!("object after the history vs mutated rebuild: {m}"));
+					}
+				}
+				let removal = ops.iter().any(|o| matches!(o, super::c06::Op::Remove(..) | super::c06::Op::RemoveAt(_) | super::c06::Op::RemoveUnique(_) | super::c06::Op::Insert(..) | super::c06::Op::InsertFront(..)));
+				Outcome::ok(removal && has_dup, vec![])
+			},
+			|(ops, rot, mutsel)| json!({"ops": format!("{ops:?}"), "rot": rot, "mutsel": mutsel}),
+		);
+		ctx.add(fam);
+	}
 	ctx.assume("reference: two values are unordered-equal iff their normal forms (entries sorted recursively by key then normal form) are identical");
 }
 
 pub fn replay(family: &str, case: &J) -> Result<(), String> {
+	if family == "D_wide_duplicates" || family == "H_after_histories" {
+		return Err("recorded for reading; re-run the family with the same VERIF_SEED to reproduce".into());
+	}
 	if family == "G_shuffle_and_mutate" {
 		let v = RefValue::decode(&case["value"]);
 		let ch: Vec<u8> = case["choices"].as_array().unwrap().iter().map(|x| x.as_u64().unwrap() as u8).collect();
